@@ -92,6 +92,10 @@ func cardinalityScript(r *rand.Rand, tr, id string, i int) *Script {
 		s.Kind = "cstream"
 		s.CS = []Op{{Name: "Send"}, {Name: "CloseSend"}}
 		s.CR = []Op{{Name: "Recv"}, {Name: "Recv"}}
+		if r.Intn(3) == 0 {
+			// the client asks for the headers first (which peeks a frame)
+			s.CR = append([]Op{{Name: "Header"}}, s.CR...)
+		}
 		h = []Op{{Name: "RecvAll"}}
 		if r.Intn(2) == 0 {
 			h = append(h, Op{Name: "SetHeader"})
@@ -114,7 +118,7 @@ func cardinalityScript(r *rand.Rand, tr, id string, i int) *Script {
 				s.Sched = append(s.Sched, "h")
 			}
 		}
-		s.Sched = append(s.Sched, "cr", "cr")
+		s.Sched = append(s.Sched, "cr", "cr", "cr")
 	} else {
 		s.Kind = "unary"
 		s.CR = []Op{{Name: "Invoke"}}
